@@ -119,7 +119,10 @@ def run_unit(unit, tier, repo, work):
             return r
         d = prepare(unit, repo)
         cmd = ["cargo", "kani", "--output-format", "regular"]
-        rc, out, wall = sh(cmd, d, 1500)
+        rc, out, wall = sh(cmd, d, 2400 if tier == "thorough" else 600)
+        if rc == 124:
+            r["undecided"].append("kani unit %s: no verdict within the time limit (%ds)" % (unit, 2400 if tier == "thorough" else 600))
+            return r
         r["cmds"].append("(cd kani/%s with @REPO@=%s && CARGO_NET_OFFLINE=true %s)" % (unit, repo, " ".join(cmd)))
         res = parse(out)
         if not res:
@@ -151,35 +154,29 @@ def run_unit(unit, tier, repo, work):
 
 
 def counterexample(unit, d, h, hr, cfg, repo):
+    """Concrete playback: Kani writes the failing values as a #[test] into the work copy, the test is then executed natively
+    on the included real file (cargo kani playback) — the counterexample replayed against the real code."""
     os.makedirs(os.path.join(ROOT, "replays"), exist_ok=True)
-    path = os.path.join(ROOT, "replays", "%s-%s-%s.json" % (cfg["props"][0], unit, time.strftime("%Y%m%d-%H%M%S")))
-    rc, out, _ = sh(["cargo", "kani", "--harness", h, "-Z", "concrete-playback", "--concrete-playback=print"], d, 900)
-    m = re.search(r"```\n(.*?)```", out, re.S)
-    test = m.group(1) if m else None
-    vals = re.findall(r"//\s*(.+)\n\s*vec!\[([^\]]*)\]", test or "")
-    observed = None
-    if test:
-        # run the generated test natively on the included real file
-        lib = os.path.join(d, "src/lib.rs")
-        orig = open(lib, encoding="utf8").read()
-        try:
-            inner = "alloc_real::proofs" if "mod alloc_real" in orig else "proofs"
-            inject = "\n#[cfg(kani)]\nmod playback {\n    use super::%s::*;\n%s\n}\n" % (inner, test)
-            # harness functions are private to `proofs`: append the test inside that module instead
-            idx = orig.rfind("}")
-            if "mod alloc_real" in orig:
-                idx = orig.rfind("}", 0, orig.rfind("}", 0, idx))
-            patched = orig[:idx] + test + "\n" + orig[idx:]
-            open(lib, "w", encoding="utf8").write(patched)
-            rc2, out2, _ = sh(["cargo", "kani", "playback", "-Z", "concrete-playback", "--", "kani_concrete_playback"], d, 900)
-            tail = [l for l in out2.splitlines() if "panicked" in l or "test result" in l or "assertion" in l]
+    path = os.path.join(ROOT, "replays", "%s-%s-%s-%s.json" % (cfg["props"][0], unit, h, time.strftime("%Y%m%d-%H%M%S")))
+    lib = os.path.join(d, "src/lib.rs")
+    orig = open(lib, encoding="utf8").read()
+    test, vals, observed = None, [], None
+    try:
+        rc, out, _ = sh(["cargo", "kani", "--harness", h, "-Z", "concrete-playback", "--concrete-playback=inplace"], d, 900)
+        patched = open(lib, encoding="utf8").read()
+        m = re.search(r"(#\[test\]\s*fn kani_concrete_playback_\w+\(\) \{.*?\n\s*\}\n)", patched, re.S)
+        if m:
+            test = m.group(1)
+            vals = re.findall(r"//\s*(.+)\n\s*vec!\[([^\]]*)\]", test)
+            rc2, out2, _ = sh(["cargo", "kani", "playback", "-Z", "concrete-playback"], d, 900)
+            tail = [l for l in out2.splitlines() if "panicked at" in l or l.startswith("assertion") or "test result" in l or "Failed" in l]
             observed = "\n".join(tail[-6:]) or out2[-600:]
-        finally:
-            open(lib, "w", encoding="utf8").write(orig)
+    finally:
+        open(lib, "w", encoding="utf8").write(orig)
     obj = {"property": cfg["props"][0], "unit": unit, "function": cfg["file"], "obligation_kind": "kani-harness", "obligation": h,
            "clause_text": cfg["harnesses"][h], "failed_checks": hr["failed"], "verifier": "kani 0.68 / cbmc 6.11",
            "counterexample": {"concrete_values": [{"value": a.strip(), "bytes": b.strip()} for a, b in vals], "playback_test": test},
            "observed_on_real_code": observed, "replay_cmd": "./check --replay %s" % path}
     json.dump(obj, open(path, "w"), indent=1)
     return {"fn": cfg["file"], "kind": "kani-harness", "label": h, "clause": cfg["harnesses"][h], "message": "; ".join(hr["failed"]),
-            "replay": path if test else path + " no-failing-input-found", "tags": cfg["props"], "fn_props": cfg["props"], "rendered": "; ".join(hr["failed"])}
+            "replay": path if (test and observed and "FAILED" in observed) else path + " no-failing-input-found", "tags": cfg["props"], "fn_props": cfg["props"], "rendered": "; ".join(hr["failed"])}
